@@ -562,7 +562,7 @@ func (a *zoneAI) run() {
 		a.in[b] = parts
 		var outs []*part
 		for _, pt := range parts {
-			outs = append(outs, a.transfer(b, pt))
+			outs = append(outs, a.transfer(b, pt)...)
 		}
 		a.out[b] = outs
 	}
@@ -593,50 +593,94 @@ func (a *zoneAI) partKey(pt *part) string {
 }
 
 // transfer: the effect of the instructions of b on one trace class (stores to and loads from the
-// tracked local cells; everything else is expression-valued SSA and needs no state).
-func (a *zoneAI) transfer(b *ssa.BasicBlock, in *part) *part {
-	var pt *part
+// tracked local cells, and the builtins min/max of two integers, which split the class by which operand is the
+// result; everything else is expression-valued SSA and needs no state).
+func (a *zoneAI) transfer(b *ssa.BasicBlock, in *part) []*part {
+	parts := []*part{in}
+	owned := []bool{false}
+	own := func(i int) *part {
+		if !owned[i] {
+			parts[i] = parts[i].clone()
+			owned[i] = true
+		}
+		return parts[i]
+	}
 	for _, ins := range b.Instrs {
 		if fs := a.callFacts[ins]; len(fs) > 0 {
-			if pt == nil {
-				pt = in.clone()
-			}
-			for _, mk := range fs {
-				if l, ok := mk(a, pt); ok {
-					pt.z.assume(l)
+			for i := range parts {
+				pt := own(i)
+				for _, mk := range fs {
+					if l, ok := mk(a, pt); ok {
+						pt.z.assume(l)
+					}
 				}
+				pt.z.close()
 			}
-			pt.z.close()
 		}
 		switch x := ins.(type) {
 		case *ssa.Store:
 			if al, ok := x.Addr.(*ssa.Alloc); ok && a.cells[al] {
-				if pt == nil {
-					pt = in.clone()
-				}
-				if l, ok := a.linIn(x.Val, pt); ok {
-					pt.mem[al] = l
-				} else {
-					delete(pt.mem, al)
+				for i := range parts {
+					pt := own(i)
+					if l, ok := a.linIn(x.Val, pt); ok {
+						pt.mem[al] = l
+					} else {
+						delete(pt.mem, al)
+					}
 				}
 			}
 		case *ssa.UnOp:
 			if al, ok := x.X.(*ssa.Alloc); ok && x.Op == token.MUL && a.cells[al] {
-				if pt == nil {
-					pt = in.clone()
-				}
-				if l, ok := pt.mem[al]; ok {
-					pt.sub[x] = l
-				} else if stored := a.everStored(al, pt); !stored {
-					pt.sub[x] = linConst(big.NewInt(0)) // zero value of a fresh local
+				for i := range parts {
+					pt := own(i)
+					if l, ok := pt.mem[al]; ok {
+						pt.sub[x] = l
+					} else if stored := a.everStored(al, pt); !stored {
+						pt.sub[x] = linConst(big.NewInt(0)) // zero value of a fresh local
+					}
 				}
 			}
+		case *ssa.Call:
+			bi, ok := x.Call.Value.(*ssa.Builtin)
+			if !ok || (bi.Name() != "min" && bi.Name() != "max") || len(x.Call.Args) != 2 {
+				break
+			}
+			if _, _, okT := a.typeBounds(x.Type()); !okT {
+				break
+			}
+			var next []*part
+			var nown []bool
+			for i := range parts {
+				pt := parts[i]
+				l0, ok0 := a.linIn(x.Call.Args[0], pt)
+				l1, ok1 := a.linIn(x.Call.Args[1], pt)
+				if !ok0 || !ok1 {
+					next, nown = append(next, pt), append(nown, owned[i])
+					continue
+				}
+				for k := 0; k < 2; k++ {
+					np := pt.clone()
+					small, large := l0, l1
+					if k == 1 {
+						small, large = l1, l0
+					}
+					np.z.assume(small.plus(large, -1)) // small - large <= 0
+					np.z.close()
+					if np.z.bottom {
+						continue
+					}
+					if bi.Name() == "min" {
+						np.sub[x] = small
+					} else {
+						np.sub[x] = large
+					}
+					next, nown = append(next, np), append(nown, true)
+				}
+			}
+			parts, owned = next, nown
 		}
 	}
-	if pt == nil {
-		return in
-	}
-	return pt
+	return parts
 }
 
 // everStored: a cell with no entry in mem is zero only if no store can have happened; a store whose
